@@ -869,6 +869,9 @@ def index_protocol(ctx, res):
         for p in ps:
             if p in ("index", "key"):
                 funcs.append((qual, fn, p))
+        # the repetition count of `*=` follows the same protocol
+        if fn.name == "__imul__" and len(ps) == 2:
+            funcs.append((qual, fn, ps[1]))
     n = 0
     for qual, fn, p in funcs:
         uses = []
@@ -886,7 +889,7 @@ def index_protocol(ctx, res):
                                 for x in (e.left, e.comparators[0])):
                     return [("ORD", False)]
                 if isinstance(e, ast.BinOp) and isinstance(
-                        e.op, (ast.Add, ast.Sub)) and any(
+                        e.op, (ast.Add, ast.Sub, ast.Mult)) and any(
                         isinstance(x, ast.Name) and x.id == p
                         for x in (e.left, e.right)):
                     return [("ARITH", False)]
